@@ -17,7 +17,7 @@ Definition reserved : list string :=
   ["__init__"; "declare_channel"; "measure"; "config_slm_mask"; "set_magnetic_field"].
 
 Definition plain_seq (name : string) (reg dev : json) (layout : option json)
-           (vars : list (string * (bool * Z))) (qids : list string)
+           (vars : list (string * (bool * Z))) (qids : list val)
            (chs : list (string * string)) (ops : list call) (meas : option string) : seqin :=
   mkSeqin name
           (mkCall "__init__" [] [("register", VJson reg); ("device", VJson dev)]
@@ -238,7 +238,7 @@ Lemma plain_seq_example :
   let vars := [("n", (true, 1))] in
   let ops := [mkCall "delay" [] [("duration", VItem "n" 1 (KInt (-1))); ("channel", VStr "ch");
                                  ("at_rest", VBool false)]] in
-  let S := plain_seq "s" (JArr []) (JStr "MockDevice") None vars ["q0"] [("ch", "rydberg_global")] ops
+  let S := plain_seq "s" (JArr []) (JStr "MockDevice") None vars [VStr "q0"] [("ch", "rydberg_global")] ops
                      (Some "ground-rydberg") in
   Forall (rt_call S (vctx vars)) ops
   /\ (match encode_seq S with
